@@ -215,6 +215,33 @@ def bounded(run, mods, tier):
                     fail(case, 'unexpected %r' % (e,))
                 if not closed_right(log):
                     fail(case, 'streams closed: %r' % [(s.origin, s.closes) for s in log])
+    # several programs given as a list, a tuple, an iterator or a generator: the same text and the same map
+    for pname, mkp in printers:
+        srcs = ['var a = 1;', 'function f(b) { return b; }', 'c = a + 2;']
+        def trees():
+            out_ = []
+            for i, s_ in enumerate(srcs):
+                t_ = es5.Parser().parse(s_)
+                t_.sourcepath = '/tmp/w/src/in%d.js' % i
+                out_.append(t_)
+            return out_
+        def run_write(nodes):
+            o, m = pyio.StringIO(), pyio.StringIO()
+            o.name, m.name = '/tmp/w/out.js', '/tmp/w/out.js.map'
+            cio.write(mkp(), nodes, o, m)
+            return o.getvalue(), m.getvalue()
+        for k in (1, 2, 3):
+            want = run_write(trees()[:k])
+            for label, mk in (('tuple', lambda ts: tuple(ts)), ('iterator', lambda ts: iter(ts)), ('generator', lambda ts: (t for t in ts)),
+                              ('generator with other objects', lambda ts: (x for t in ts for x in (None, t)))):
+                n += 1
+                try:
+                    got = run_write(mk(trees()[:k]))
+                except Exception as e:
+                    got = 'raised %r' % (e,)
+                if got != want:
+                    fail('nodes as %s | %s | %d programs' % (label, pname, k), 'write() of %d programs given as a %s differs from the same programs given as a list: %r' % (
+                        k, label, (got[0][:80] if isinstance(got, tuple) else got)), nodes=label)
     # the read helper re-labels a syntax error: same class as the parser raises on the same text, message extended by the stream name
     for bad in ('var = 1;', 'a b', 'var r = /abc', 'x = /[/;', 'var s = "abc', 'a = 1 @'):
         try:
